@@ -240,7 +240,7 @@ def run(tier, seed):
                 'with several entry points per asset) plus the decorated model family is emitted in the 0.0.39 layout (json, yaml, '
                 'inline association fields) and as .sCAD (both orientations of every association element) and loaded through the '
                 'legacy loaders; normal form (assets with defenses, pairwise links, entry points) must equal the native load')
-    depth, K = (4, 1) if tier == 'quick' else (5, 2)
+    depth, K = (4, 1) if tier == 'quick' else (5, 1)
     scratch = common.Result(PROP, tier, seed, 'model_checking')
     hists = distinct_histories('OPS', depth, K, scratch, seed)
     jobs = [('hist', ('OPS', hists[i:i + 16])) for i in range(0, len(hists), 16)]
